@@ -440,8 +440,12 @@ func (g *G) genC02(p *Plan) {
 			op = Op{K: "mkbucket", B: bkt()}
 		case r < 86:
 			op = Op{K: "rmbucket", B: bkt()}
-			if g.chance(0.15) {
+			if g.chance(0.15) || (c.Faulty && g.chance(0.3)) {
 				op.Status = "force"
+				if c.Faulty && c.FS == "simfs" && g.chance(0.6) {
+					// many unlinks, one of which fails
+					op.Faults = append(op.Faults, Fault{Kind: "eio", At: g.n(1, 24)})
+				}
 			}
 		case r < 89:
 			op = Op{K: "headbucket", B: bkt()}
